@@ -110,11 +110,14 @@ struct CDlist : mc::Model
         memset(it, 0xAB, sizeof(CItem) * E);
         for (int i = 0; i < E; i++)
             it[i].key = i;
-        for (int h = 0; h < H; h++)
+        // head 0 through dlist_init, head 1 through the static initialiser macro
+        dlist_init(&it[0].lnk);
         {
-            dlist_init(&it[h].lnk);
-            st[h] = INIT;
+            struct dlist_head tmp = DLIST_HEAD_INIT(it[1].lnk);
+            it[1].lnk = tmp;
         }
+        for (int h = 0; h < H; h++)
+            st[h] = INIT;
         for (int x = H; x < E; x++)
             ops.push_back({K_INIT, x, 0});
         for (int k : {K_ADD_NEXT, K_ADD_PREV, K_MOVE, K_MOVE_TAIL, K_INSTEAD})
@@ -640,6 +643,33 @@ struct XDlist : mc::Model
                 --i;
                 back.push_back(H + i->id);
             }
+            // the same walks with the other increment/decrement forms, and the const overloads
+            {
+                vector<int> b2, r2, cf;
+                for (auto i = q.end(); i != q.begin();)
+                {
+                    i--;
+                    b2.push_back(H + (*i).id);
+                }
+                for (auto i = q.rbegin(); i != q.rend(); i++)
+                    r2.push_back(H + (*i).id);
+                // reverse iterator walked backwards from rend() gives the forward order
+                vector<int> rb;
+                for (auto i = q.rend(); i != q.rbegin();)
+                {
+                    --i;
+                    rb.push_back(H + i->id);
+                }
+                const XList &cq = q;
+                for (auto i = cq.begin(); i != cq.end(); ++i)
+                    cf.push_back(H + i->id);
+                if (b2 != wrev || r2 != wrev)
+                    mc::violation(mc::fmt("C01.cxx_dlist.%s.backward", sigk), "%s postfix backward walk %s / %s want %s", el(l).c_str(),
+                                  vstr(b2).c_str(), vstr(r2).c_str(), vstr(wrev).c_str());
+                if (rb != want || cf != want)
+                    mc::violation(mc::fmt("C01.cxx_dlist.%s.forward", sigk), "%s reverse_iterator-- / const walk %s / %s want %s", el(l).c_str(),
+                                  vstr(rb).c_str(), vstr(cf).c_str(), vstr(want).c_str());
+            }
             // only items may be in a list's ring in this universe (heads never share a ring)
             for (int v : want)
                 if (v < H)
@@ -710,7 +740,10 @@ struct SlistModel : mc::Model
     SlistModel() : N(g_nodes()), it(N), ref(H), where(N, -1)
     {
         slist_init(&heads[0]);
-        slist_init(&heads[1]);
+        {
+            struct slist_head tmp = SLIST_HEAD_INIT(heads[1]);
+            heads[1] = tmp;
+        }
         for (int i = 0; i < N; i++)
         {
             it[i].id = i;
